@@ -15,6 +15,7 @@ RULE = ("each case builds one real System with one element: Spring / KelvinVoigt
 ASSUMPTIONS = ["D-oracle: Richardson central differences, violation iff error > 1e-6*max(1,|D|) + 20*uncertainty; noisy => undecided",
                "the revolute angle is a tracked (stateful) quantity: System.reset() is called before each state and the base point is evaluated first, so finite differences stay on one branch"]
 REQUIRED_MONITORS = ["D:h_q", "D:h_u", "D:c_q", "D:c_u", "D:c_la_c", "D:Wla_c_q", "D:Wla_tau_q", "D:Wla_tau_u", "D:q_dot_q", "D:q_dot_u"]
+FORMAT_TWIN = True          # ambient monitor: every System matrix is also requested in the other documented formats (vlib/formattwin.py)
 META = {
     "level_text": "Exploration: finite-difference D-oracle on the system-level Jacobians of generated systems covering every force law, interaction, external force/moment and actuator on its supported subsystems, at random states. Held on the systems and states generated.",
     "level_note": "float64; finite-difference oracle with measured uncertainty.",
